@@ -386,6 +386,20 @@ func (v *Env) eval(x Expr) *Val {
 			// identical(a, b): identical values (SMT equality; for floats: the same IEEE datum, NaN included, +0 and -0 distinct)
 			a, b := v.eval(x.Args[0]), v.eval(x.Args[1])
 			return &Val{typ: tBool, c: []string{v.equal(a, b)}}
+		case "bytesEq":
+			// bytesEq(b, "literal"): the byte slice holds exactly the literal's bytes
+			b := v.eval(x.Args[0])
+			ls, ok := x.Args[1].(*EStr)
+			if !ok || len(b.c) != 4 {
+				panic("contract: bytesEq(slice, \"literal\")")
+			}
+			parts := []string{eq(b.c[2], num(int64(len(ls.S))))}
+			st := b.typ.Underlying().(*types.Slice)
+			for i := 0; i < len(ls.S); i++ {
+				ref := app("elem", b.c[0], app("+", b.c[1], num(int64(i))))
+				parts = append(parts, eq(e.loadAt(v.st, ref, st.Elem()).c[0], num(int64(ls.S[i]))))
+			}
+			return &Val{typ: tBool, c: []string{and(parts...)}}
 		case "ValidUTF8":
 			return v.e.ufTerm("spec.ValidUTF8", []*Val{v.eval(x.Args[0])}, tBool)
 		case "HasDotSegment":
@@ -644,6 +658,8 @@ func (v *Env) eval(x Expr) *Val {
 			return inner.eval(pd.Body)
 		}
 		panic("contract: unknown function " + x.Fn)
+	case *EFloat:
+		return &Val{typ: types.Typ[types.Float64], c: []string{fpLit(x.V, types.Typ[types.Float64])}}
 	case *EUnary:
 		a := v.eval(x.X)
 		if x.Op == "!" {
@@ -769,6 +785,12 @@ func (v *Env) eval(x Expr) *Val {
 			}
 			if n, ok := x.R.(*ENum); ok {
 				r = &Val{typ: ft, c: []string{fpLit(float64(n.V), ft)}}
+			}
+			if n, ok := x.L.(*EFloat); ok {
+				l = &Val{typ: ft, c: []string{fpLit(n.V, ft)}}
+			}
+			if n, ok := x.R.(*EFloat); ok {
+				r = &Val{typ: ft, c: []string{fpLit(n.V, ft)}}
 			}
 			if op, ok := map[string]string{"==": "fp.eq", "<": "fp.lt", "<=": "fp.leq", ">": "fp.gt", ">=": "fp.geq"}[x.Op]; ok {
 				return &Val{typ: tBool, c: []string{app(op, l.c[0], r.c[0])}}
